@@ -397,6 +397,11 @@ func tablesChecker(cr *checkRun) {
 		}
 	}
 
+	tableVerdict(cr, kfs, obls, "tables")
+}
+
+// tableVerdict turns ground table obligations into the check result.
+func tableVerdict(cr *checkRun, kfs []KnownFinding, obls []tblOblig, label string) {
 	// verdict
 	nOK := 0
 	var failed []string
@@ -431,5 +436,5 @@ func tablesChecker(cr *checkRun) {
 			cr.samples = append(cr.samples, map[string]string{"table_obligation": o.name, "fact": o.why, "status": fmt.Sprint(o.ok)})
 		}
 	}
-	cr.custom = append(cr.custom, map[string]interface{}{"checker": "tables", "entries_checked": len(obls), "entries_ok": nOK, "failed": failed, "exhaustive": true})
+	cr.custom = append(cr.custom, map[string]interface{}{"checker": label, "entries_checked": len(obls), "entries_ok": nOK, "failed": failed, "exhaustive": true})
 }
